@@ -513,11 +513,13 @@ where
             let head_ref = visitor.mark_branch_point();
             let exit_ref = visitor.mark_branch_point();
             let break_label = Some(exit_ref);
-            // the case block is one lexical scope: declarations in a clause must not leak out
-            let mut locals = locals.clone();
             let bodies: Vec<_> = body_statements
                 .iter()
                 .filter_map(|nodes| {
+                    // declarations in a clause must not leak out of the switch, nor into the
+                    // following clauses: a clause can be entered by a jump from the head, in
+                    // which case the initializers of the preceding clauses have not run
+                    let mut locals = locals.clone();
                     walk_stmt_nodes(
                         ctx,
                         &mut locals,
